@@ -255,7 +255,9 @@ def gen_z(rng, n, dom, y, style):
                 out.append(max(v + rng.randrange(-8, 9) / 8.0, 0.125))
             else:
                 out.append(min(max(v * 0.5 + 0.25 + rng.randrange(-3, 4) / 16.0, 0.0625), 0.9375))
-        return out
+        # rounded: -1.55 + 2.5 and 0.2 + 0.75 differ by one ulp, and scikit-learn (mean functional) pools forecasts closer than
+        # 1e-15 - numerically tied forecasts are outside what is judged or compared (DESIGN section 10, tolerances)
+        return [round(v, 9) for v in out]
     raise ValueError(style)
 
 
